@@ -9,6 +9,7 @@ package main
 import (
 	"fmt"
 	"strings"
+	"sync"
 	"time"
 
 	sio "github.com/karagenc/socket.io-go"
@@ -54,7 +55,20 @@ func withText(first string, n int) []repFrame {
 
 // repEventNames: the event names for which the five family handlers are registered on every socket = the
 // names carried by the representatives (computed with the pure decoder, deterministically).
-var repEventNames = func() []string {
+//
+// Lazy: nothing in the coordinator or in the decoder workers may call into the code under test at package
+// initialisation (a hanging decoder would hang them before any watchdog runs).
+var (
+	repEventNamesOnce sync.Once
+	repEventNamesList []string
+)
+
+func repEventNames() []string {
+	repEventNamesOnce.Do(func() { repEventNamesList = computeRepEventNames() })
+	return repEventNamesList
+}
+
+func computeRepEventNames() []string {
 	seen := map[string]bool{"a": true, "": true}
 	for _, rp := range representatives() {
 		p := newParser(0)
@@ -69,7 +83,7 @@ var repEventNames = func() []string {
 		}
 	}
 	return sortedKeys(seen)
-}()
+}
 
 const ph0 = `{"_placeholder":true,"num":0}`
 
@@ -156,52 +170,57 @@ func extraReps() []rep {
 		{"placeholder/num=2^63-1-top-level", withBin(`51-["a",{"_placeholder":true,"num":9223372036854775807}]`, 1)},
 		{"placeholder/num=1e30-in-map", withBin(`51-["a",{"a":{"_placeholder":true,"num":1e30}}]`, 1)},
 		{"placeholder/num=-2-in-ack", withBin(`61-1[{"a":{"_placeholder":true,"num":-2}}]`, 1)},
+		// classes that only exist once the negative-index panics are repaired (num -1e0: float -1 in a map, not an int elsewhere)
+		{"placeholder/num=-1e0-in-map-2-attachments", withBin(`52-["a",{"a":{"_placeholder":true,"num":-1e0}}]`, 2)},
+		{"placeholder/num=-1e0-in-ack-2-attachments", withBin(`62-1[{"a":{"_placeholder":true,"num":-1e0}}]`, 2)},
 	}
 }
 
 // expectation derives, with the (pure) decoder, whether the server has an error to report for a
 // representative sent to a socket of namespace "/" that has all families registered for repEventNames and
-// no outstanding acks.
-func expectation(rp rep) (expectErr bool, why string) {
+// no outstanding acks. stage says where the input ends up (it is part of violation keys: one key per stage,
+// not per input).
+func expectation(rp rep) (expectErr bool, stage, why string) {
 	p := newParser(0)
 	for i, f := range rp.Frames {
 		r := step(p, []byte(f.Data))
 		switch r.kind {
 		case stepPanic:
-			return false, "" // judged as a panic
+			return false, "Parser.Add panics", "" // judged as a panic
 		case stepErr:
-			return true, fmt.Sprintf("Parser.Add fails on frame %d (%s)", i, errClass(r.err))
+			return true, "Parser.Add fails", fmt.Sprintf("Parser.Add fails on frame %d (%s)", i, errClass(r.err))
 		case stepFinished:
 			if r.header.Namespace != "/" && r.header.Namespace != "" {
-				return false, ""
+				return false, "packet for a namespace the connection has not joined", ""
 			}
 			switch r.header.Type {
 			case parser.PacketTypeAck, parser.PacketTypeBinaryAck:
-				return true, "an ACK that no emit is waiting for"
+				return true, "ACK that no emit waits for", "an ACK that no emit is waiting for"
 			case parser.PacketTypeEvent, parser.PacketTypeBinaryEvent:
 				registered := false
-				for _, n := range repEventNames {
+				for _, n := range repEventNames() {
 					if n == r.event {
 						registered = true
 					}
 				}
 				if !registered {
-					return false, ""
+					return false, "event without handlers", ""
 				}
 				for _, fam := range families {
 					var err error
 					if pn := guard(func() { _, err = r.decode(fam.types...) }); pn != nil {
-						return false, ""
+						return false, "decoding the event's arguments panics", ""
 					}
 					if err != nil {
-						return true, fmt.Sprintf("decode fails for the %s handler (%s)", fam.name, errClass(err))
+						return true, "decoding the event's arguments fails", fmt.Sprintf("decode fails for the %s handler (%s)", fam.name, errClass(err))
 					}
 				}
+				return false, "event decoded for every handler", ""
 			}
-			return false, ""
+			return false, "control packet", ""
 		}
 	}
-	return false, ""
+	return false, "packet still waiting for attachments", ""
 }
 
 // threadRole names the production counterpart of a modelled thread.
@@ -216,7 +235,8 @@ func threadRole(site string) string {
 }
 
 func processScenario(rp rep, bound int) *vx.Scenario {
-	expectErr, why := expectation(rp)
+	expectErr, stage, why := expectation(rp)
+	names := repEventNames()
 	sc := &vx.Scenario{Name: "process/" + rp.Name, Bound: bound, Horizon: 2 * time.Minute, AllowPanic: true}
 	sc.Body = func(e *vsched.Exec) func() vx.Result {
 		srv := sio.NewServer(nil)
@@ -229,7 +249,7 @@ func processScenario(rp rep, bound int) *vx.Scenario {
 			sv.Do(func() { nconn++; me = nconn })
 			s.OnError(func(err error) { sv.Do(func() { errs[me] = append(errs[me], err.Error()) }) })
 			note := func() { sv.Do(func() { handled++ }) }
-			for _, name := range repEventNames {
+			for _, name := range names {
 				s.OnEvent(name, func(b sio.Binary) { note() })
 				s.OnEvent(name, func(m map[string]any) { note() })
 				s.OnEvent(name, func(v any) { note() })
@@ -287,17 +307,17 @@ func processScenario(rp rep, bound int) *vx.Scenario {
 			echo2 := f2.HasPrefix(`37["x"]`)
 			echo3 := f3 != nil && f3.HasPrefix(`38["y"]`)
 			if !echo2 {
-				r.Violate("process: the idle connection 2 no longer completes an event->ack echo after "+rp.Name, "after %s on connection 1, connection 2 got: %s", showRep(rp), f2)
+				r.Violate("process: the idle connection 2 no longer completes an event->ack echo after connection 1 received an input of the kind: "+stage, "[%s] after %s on connection 1, connection 2 got: %s", rp.Name, showRep(rp), f2)
 			} else if !echo3 {
 				got := "(never attached)"
 				if f3 != nil {
 					got = f3.String()
 				}
-				r.Violate("process: a fresh connection 3 does not complete an event->ack echo after "+rp.Name, "after %s on connection 1, connection 3 got: %s", showRep(rp), got)
+				r.Violate("process: a fresh connection 3 does not complete an event->ack echo after connection 1 received an input of the kind: "+stage, "[%s] after %s on connection 1, connection 3 got: %s", rp.Name, showRep(rp), got)
 			}
 			if expectErr && npanic == 0 && len(errs[2]) == 0 && f1.Closed == 0 {
-				r.Violate("process: decode error neither reported to the socket's error handlers nor answered by closing the connection: "+rp.Name,
-					"input %s: %s, but no OnError handler of connection 1 ran and connection 1 was not closed (frames sent to it: %s)", showRep(rp), why, f1)
+				r.Violate("process: error neither reported to the socket's error handlers nor answered by closing the connection: "+stage,
+					"[%s] input %s: %s, but no OnError handler of connection 1 ran and connection 1 was not closed (frames sent to it: %s)", rp.Name, showRep(rp), why, f1)
 			}
 			if len(errs[1]) > 0 || len(errs[3]) > 0 {
 				r.Violate("process: an error of connection 1 was reported on another connection", "errors seen by conn2: %v, conn3: %v", errs[1], errs[3])
@@ -329,6 +349,9 @@ func scenarios(tier string) []*vx.Scenario {
 	var out []*vx.Scenario
 	for _, rp := range representatives() {
 		out = append(out, processScenario(rp, bound))
+	}
+	for _, rp := range clientReps() {
+		out = append(out, clientScenario(rp, bound))
 	}
 	return out
 }
